@@ -643,7 +643,8 @@ void run_lazy(Ctx& c, int psSize, int dSize) {
     c.rep.count("evaluations"); c.rep.count("nontrivial"); c.rep.outcome("huge-lazy");
     c.done();
   }
-  const std::vector<K> kinds = { { 'P', psSize - 1 }, { 'D', 8 }, { 'P', psSize }, { 'D', dSize } };   // below and above the cache limit
+  // below and above the cache limit; the last two have more than 256 elements (positions beyond one byte): selected lags / positions only
+  const std::vector<K> kinds = { { 'P', psSize - 1 }, { 'D', 8 }, { 'P', psSize }, { 'D', dSize }, { 'P', 9 }, { 'D', 20 } };
   for (const auto& kd : kinds) {
     const LazyObj proto = make_lazy(kd.kind, kd.size);
     const size_t N = proto.expect.size();
@@ -658,7 +659,10 @@ void run_lazy(Ctx& c, int psSize, int dSize) {
       ++cu.it; ++cu.pos;
     };
     // F1: B lags behind A by d positions, all deref policies
+    const bool big = N > 256;
+    auto selected = [&](size_t x) { return !big || x <= 1 || x == 100 || (x >= 255 && x <= 257) || x == 300 || x + 1 >= N; };
     for (size_t d = 0; d <= N; ++d) for (int pa : { 0, 1, 3, 4 }) for (int pb : { 0, 2 }) {
+      if (!selected(d)) continue;
       if (!c.take()) continue;
       const std::string desc = "lazy:lag " + proto.name + " d=" + std::to_string(d) + " policyA=" + std::to_string(pa) + " policyB=" + std::to_string(pb);
       c.begin(desc);
@@ -676,6 +680,7 @@ void run_lazy(Ctx& c, int psSize, int dSize) {
     }
     // F2: copy of a cursor in the middle of the traversal; F3: nested traversal (copy discipline)
     for (size_t i = 0; i < N; ++i) {
+      if (!selected(i)) continue;
       if (c.take()) {
         c.begin("lazy:iterator-copy " + proto.name + " at=" + std::to_string(i));
         Checker k{ c };
